@@ -456,7 +456,7 @@ def check_writes(repo, rep, mod):
             bad = uses_parent(m.node)
             touched = set()
             for w in effects.writes_in(m.node):
-                touched.add(model.norm(w.target))
+                touched.add(model.norm(norm.subst_locals(m.node, w.target)))
             for c in model.calls_in(m.node):
                 if isinstance(c.func, ast.Attribute) and c.func.attr in (
                         'register_function', 'delete_function'):
@@ -478,8 +478,10 @@ def check_writes(repo, rep, mod):
     first = 'self.%s[0]' % attr
     stores = [w for w in effects.writes_in(ms.node)
               if w.kind in ('subscript', 'aug-subscript')]
-    others = [w for w in stores if model.norm(w.target) != first]
-    ok = any(model.norm(w.target) == first for w in stores) and not others
+    def tgt(w):
+        return model.norm(norm.subst_locals(ms.node, w.target))
+    others = [w for w in stores if tgt(w) != first]
+    ok = any(tgt(w) == first for w in stores) and not others
     rep.ob('R17e', ms.key + '/first-member', ok,
            'a multi-context stores variables into its first member, always '
            '(`%s[name] = value`); it %s' % (
